@@ -122,7 +122,7 @@ func (s *DefaultSaftyRules) CheckProposal(proposal, parent QuorumCertInterface, 
 	if proposal.GetProposalView() < s.lastVoteRound-3 {
 		return TooLowProposalView
 	}
-	if justifyValidators == nil {
+	if len(justifyValidators) == 0 { // an empty (non-nil) list would make any certificate reach the threshold of 0
 		return EmptyValidators
 	}
 	// step2: verify justify's votes
